@@ -79,6 +79,14 @@ var props = map[string]*propSpec{
 		QuickBudget:    55 * time.Second,
 		ThoroughBudget: 20 * time.Minute,
 	},
+	"C08": {
+		Level: "exploration",
+		Rule: "family idrace: 2-16 caller goroutines released together start RPCs (mixed shapes, some failing at start: failing / secure-only credentials, already-cancelled context) on one channel x schedule, wire monitor checks ids strictly increase and every id starts with new_stream, history checks one handler invocation per completed call; family idraw: a raw tunnel client (both network roles, negotiated or legacy) sends valid streams and one of {reuse live id, reuse finished id, backwards id, negative id, frames for a finished id, skipped-ahead id, frame for a never-created id}, then a probe stream; " +
+			"non-trivial = at least two RPCs were started concurrently / the deviation was sent; distinct = distinct schedule digests",
+		Families:       []famPlan{{Family: "idrace", Weight: 2}, {Family: "idraw", Weight: 2}},
+		QuickBudget:    45 * time.Second,
+		ThoroughBudget: 15 * time.Minute,
+	},
 	"C10": {
 		Level: "fault_enumeration",
 		Rule: "per baseline (configuration x 0-3 in-flight RPCs kept open by handler sleeps x schedule) the fault-free run reports its N frames; graceful shutdown (InitiateShutdown / GracefulStop in its own goroutine) is then initiated at every frame boundary k (thorough; quick: stratified sample), 1-4 further RPCs are attempted afterwards (directly and through the pooled channel), the run is driven to final quiescence, then Stop is called; " +
@@ -86,6 +94,14 @@ var props = map[string]*propSpec{
 		Families:       []famPlan{{Family: "graceful", Weight: 3, Enum: true, EnumCauses: 2, EnumQuick: 12}, {Family: "graceful", Weight: 1}},
 		QuickBudget:    55 * time.Second,
 		ThoroughBudget: 20 * time.Minute,
+	},
+	"C16": {
+		Level: "exploration",
+		Rule: "one run = one case from {raw client vs real server, raw server vs real client, application sends twice} x call shape x number of messages on the side in question (0-4) x chunking (1, 7, 16384 bytes, whole) x 0-2 messages after the half-close / close frame x network role x negotiated/legacy x schedule, followed by a fresh RPC on the same tunnel; " +
+			"non-trivial = the case ran to its end; distinct = distinct schedule digests",
+		Families:       []famPlan{{Family: "shapes", Weight: 1}},
+		QuickBudget:    45 * time.Second,
+		ThoroughBudget: 12 * time.Minute,
 	},
 	"C14": {
 		Level: "exploration",
